@@ -206,6 +206,10 @@ pub fn check(hdr: &str, lines: &[String], trace: &[(String, Vec<String>)], mon: 
     let mut not_before: Option<u64> = None;
     let mut pending_deferred: Option<u8> = None;
     let mut last_new_unsol_seq: Option<u8> = None;
+    // ---- C18 state
+    let mut recorded_at: Option<u64> = None;
+    // ---- deferred READ that must be flagged when finally answered
+    let mut deferred_reject: Option<u8> = None;
 
     for (k, (op, outs)) in trace.iter().enumerate() {
         let ws: Vec<&str> = op.split_whitespace().collect();
@@ -674,6 +678,51 @@ pub fn check(hdr: &str, lines: &[String], trace: &[(String, Vec<String>)], mon: 
             if let Some(s) = pending_deferred.take() {
                 if !t.iter().any(|x| x.bytes.len() >= 4 && x.bytes[1] == 0x81 && x.bytes[0] & 0x80 != 0 && (x.bytes[0] & 0x0F) == s) {
                     fail(mon, hdr, "read_deferred_not_dropped", "", &format!("op {k}: READ seq {s} not answered when the series ended"));
+                }
+            }
+        }
+
+        // ------------------------------------------------------------------ C18 (outstation half)
+        if let Some((_s, _d, f)) = &frag {
+            let bc_processed = outs.iter().any(|o| o.starts_with("cb broadcast") && o.ends_with("processed"));
+            if delivered_now && ((accepted_master && !is_bc) || (is_bc && bc_processed)) && !herr && !repeat_op {
+                if func == Some(24) {
+                    recorded_at = Some(now);
+                }
+                // any accepted write of g50v3 consumes the recorded time
+                if func == Some(2) && f.len() != 12 && f[2..].windows(3).any(|w| w == [0x32, 0x03, 0x07]) && has_cb(outs, "cb write_time") {
+                    recorded_at = None;
+                }
+                // WRITE with exactly one header g50v3 / g50v1, count 1
+                if func == Some(2) && f.len() == 12 && f[2] == 0x32 && f[4] == 0x07 && f[5] == 1 && (f[3] == 3 || f[3] == 1) {
+                    let mut v: u64 = 0;
+                    for i in 0..6 {
+                        v |= (f[6 + i] as u64) << (8 * i);
+                    }
+                    let written: Vec<u64> = outs.iter().filter_map(|o| o.strip_prefix("cb write_time ").map(|x| x.trim().parse().unwrap())).collect();
+                    if f[3] == 1 {
+                        if !is_bc && written != vec![v] {
+                            fail(mon, hdr, "time_written_is_master_time", "", &format!("op {k}: g50v1 {v} -> {written:?}"));
+                        }
+                    } else {
+                        match recorded_at {
+                            Some(r) => {
+                                let want = v + (now - r);
+                                let expect: Vec<u64> = if want > 0xFFFF_FFFF_FFFF { vec![] } else { vec![want] };
+                                if written != expect {
+                                    fail(mon, hdr, "time_written_is_master_time", "", &format!("op {k}: g50v3 {v} + {} -> {written:?}", now - r));
+                                }
+                                if !written.is_empty() {
+                                    recorded_at = None;
+                                }
+                            }
+                            None => {
+                                if !written.is_empty() {
+                                    fail(mon, hdr, "time_written_is_master_time", "", &format!("op {k}: g50v3 without RECORD_CURRENT_TIME wrote {written:?}"));
+                                }
+                            }
+                        }
+                    }
                 }
             }
         }
